@@ -80,6 +80,9 @@ var c20Injs = []c20Inj{
 	// a misplaced continue after a poryswitch whose colon-form case holds a nested poryswitch with empty cases (nothing a
 	// colon-form case sets up may outlive the case)
 	{name: "continue-not-last-after-colon-case-with-empty-nested-poryswitch", lines: []string{"poryswitch(PV) {", "NOPE: o", "_: poryswitch(PV) {", "NOPE2 {", "}", "_ {", "}", "}", "}", "while (flag(Q)) {", "q", "continue", "after", "}"}, errLine: 11, multi: true},
+	{name: "duplicate-case-after-nested-switch", lines: []string{"switch (var(Q)) {", "case 1:", "switch (var(R)) {", "case 7:", "q", "}", "case 2:", "r", "case 1:", "s", "}"}, errLine: 8, multi: true},
+	{name: "duplicate-case-after-nested-switch-with-the-same-value", lines: []string{"switch (var(Q)) {", "case 1:", "switch (var(R)) {", "case 1:", "q", "default:", "q2", "}", "case 1:", "s", "}"}, errLine: 8, multi: true},
+	{name: "second-default-after-nested-switch-with-default", lines: []string{"switch (var(Q)) {", "default:", "switch (var(R)) {", "default:", "q", "}", "case 2:", "r", "default:", "s", "}"}, errLine: 8, multi: true},
 	{name: "continue-before-jumped-to-label-after-colon-case-with-empty-nested-poryswitch", lines: []string{"poryswitch(PV) {", "NOPE: o", "_: poryswitch(PV) {", "NOPE2 {", "}", "_ {", "}", "}", "}", "while (flag(Q)) {", "if (flag(H)) {", "goto(AfterL)", "}", "continue", "AfterL:", "after", "}"}, errLine: 13, multi: true},
 	{name: "continue-before-jumped-to-label", lines: []string{"while (flag(Q)) {", "if (flag(H)) {", "goto(AfterL)", "}", "continue", "AfterL:", "after", "}"}, errLine: 4, multi: true},
 	{name: "continue-not-last-after-colon-case-continue", lines: []string{"while (flag(Q0)) {", "poryswitch(PV) {", "NOPE: o", "_: continue", "}", "}", "while (flag(Q)) {", "q", "continue", "after", "}"}, errLine: 8, multi: true},
@@ -276,7 +279,7 @@ func runC20(tier string) int {
 	r.Assume("one statement per line, so the reported start line identifies the offending construct",
 		"offending construct: the break / continue, the second case with the same value, the second default, the second const, the user text / movement statement, the label")
 	return r.Finish(r.Get("evaluations"), r.Get("nontrivial"),
-		"every nesting chain of depth <= d over {if, else, elif, while, infinite while, do...while, switch case, default, poryswitch brace / colon case} under 3 roots (script, inline map script, table inline script) x 56 injections, plus chains of every depth up to the deep-chain bound in the coverage (each wrapper kind repeated, and all kinds rotating) (break / continue outside their scopes incl. after every closed loop / switch / if that contains another loop or switch, continue not last, duplicate case value incl. via a constant and multi-token, second default) + redefined constants (first value a number, the constant's own name, another constant, an unknown name, an expression; 3 placements of the second definition; constant cycles), text / movement names equal to generated ones, script labels equal to every generated label of the renamed program and to text labels, the former also for every placement of the label (directly and inside every kind of block, in live code and after end / return / break / goto / an infinite loop); non-trivial = the program is ill-formed (an error is required)")
+		"every nesting chain of depth <= d over {if, else, elif, while, infinite while, do...while, switch case, default, poryswitch brace / colon case} under 3 roots (script, inline map script, table inline script) x 59 injections, plus chains of every depth up to the deep-chain bound in the coverage (each wrapper kind repeated, and all kinds rotating) (break / continue outside their scopes incl. after every closed loop / switch / if that contains another loop or switch, continue not last, duplicate case value incl. via a constant and multi-token, second default) + redefined constants (first value a number, the constant's own name, another constant, an unknown name, an expression; 3 placements of the second definition; constant cycles), text / movement names equal to generated ones, script labels equal to every generated label of the renamed program and to text labels, the former also for every placement of the label (directly and inside every kind of block, in live code and after end / return / break / goto / an infinite loop); non-trivial = the program is ill-formed (an error is required)")
 }
 
 // c20LabelPlacements: the label clash clause over every placement of a label: the dead-label programs of C04 put a
